@@ -151,6 +151,7 @@ func Stop()                                 {}
 func Observe(name string, v any)            {}
 func Log(format string, args ...any)        {}
 func CheckLeaks()                           {}
+func Domain(n int)                          {}
 func PoolNondet()                           {}
 func SetGOMAXPROCS(n int)                   {}
 func ReadOnly(name string, p any)           {}
